@@ -309,12 +309,25 @@ func (h *handler1) handleClientPublish(ctx context.Context, snPublish *snPkts1.P
 		return fmt.Errorf("invalid topic name %q in %v", topic, snPublish)
 	}
 	if snPublish.QOS == 1 {
-		h.transactions.Store(msgID, newClientPublishQOS1Transaction(ctx, h, msgID, snPublish.TopicID))
+		h.storeTransaction(msgID, newClientPublishQOS1Transaction(ctx, h, msgID, snPublish.TopicID))
 	}
 	mqPublish.TopicName = topic
 	mqPublish.Payload = snPublish.Data
 
 	return h.mqttSend(mqPublish)
+}
+
+// storeTransaction stores the transaction of an exchange started by the client.
+//
+// If an exchange with the same MsgID is still in progress (the client has
+// sent the packet again), the new transaction supersedes it. The old transaction
+// is finished at once: its timeout would otherwise delete the MsgID - i.e. the
+// new transaction - from the store later.
+func (h *handler1) storeTransaction(msgID uint16, transaction transactions.Transaction) {
+	if oldTransaction, ok := h.transactions.Get(msgID); ok {
+		oldTransaction.Fail(Cancelled)
+	}
+	h.transactions.Store(msgID, transaction)
 }
 
 func (h *handler1) handleBrokerPublish(ctx context.Context, mqPublish *mqPkts.PublishPacket) error {
@@ -759,7 +772,7 @@ func (h *handler1) handleSubscribe(ctx context.Context, snSubscribe *snPkts1.Sub
 
 	msgID := snSubscribe.MessageID()
 	transaction := newSubscribeTransaction(ctx, h, msgID, topicID, newTopic)
-	h.transactions.Store(msgID, transaction)
+	h.storeTransaction(msgID, transaction)
 
 	mqSubscribe := mqPkts.NewControlPacket(mqPkts.Subscribe).(*mqPkts.SubscribePacket)
 	mqSubscribe.MessageID = snSubscribe.MessageID()
